@@ -178,7 +178,7 @@ func batchCopyMap(w *World, src *Cont) (*Cont, error) {
 		return nil, violf("source ReadOnlyIterator: %v", err)
 	}
 	var keys, vals []MV
-	m, err := atree.NewMapFromBatchData(w.St, w.Addr, w.digesterBuilder(), tu.NewSimpleTypeInfo(42), tu.CompareValue, tu.GetHashInput, src.Map.Seed(),
+	m, err := atree.NewMapFromBatchData(w.St, w.Addr, w.digesterBuilder(), tu.NewSimpleTypeInfo(42), CompareValue, GetHashInput, src.Map.Seed(),
 		func() (atree.Value, atree.Value, error) {
 			k, v, err := it.Next()
 			if err != nil || k == nil {
@@ -624,7 +624,7 @@ func c17Negative(a c17Arg, res *TaskResult) {
 	}
 	feed := func(w *World, seed uint64, keys []int) error {
 		i := 0
-		_, err := atree.NewMapFromBatchData(w.St, w.Addr, w.digesterBuilder(), tu.NewSimpleTypeInfo(42), tu.CompareValue, tu.GetHashInput, seed,
+		_, err := atree.NewMapFromBatchData(w.St, w.Addr, w.digesterBuilder(), tu.NewSimpleTypeInfo(42), CompareValue, GetHashInput, seed,
 			func() (atree.Value, atree.Value, error) {
 				if i == len(keys) {
 					return nil, nil, nil
